@@ -1,15 +1,16 @@
 """C19 - resampling never invents, loses or unpairs data (DESIGN 4/C19)."""
 LEVEL = "model_checking"
-RULE = ('P1: TLC explores the shuffle loop of resample.rs (2n transpositions, both indices drawn nondeterministically) '
-        'for n <= NMax (quick 3, thorough 4) over ALL draw sequences: the array stays a permutation, the paired array '
-        'sees the same swaps, every permutation is reachable after 2n swaps (ASSUME Reach = Perms), jackknife '
-        'definition sanity. P3: for each seed the real bootstrap / jackknife / shuffle / shuffle_two are called on '
-        'position tokens (lengths 1, 2, 1..64 and 200..2000), on repeated and special values (+-0, +-inf, NaN, '
-        'subnormal: sorted token multisets, paired tokens) and the events are validated by TLC (Trace_Resample): '
-        'permutation, common permutation, exact leave-one-out rows in order, row count / row length / index range of '
-        'bootstrap, and pooled position counts of 200 resamples inside the DKW band (alpha = 1e-12) of the exact '
-        'uniform CDF, and the position frequencies of every slot of every resample (the first one included) over 4000 '
-        'separate calls with 1..3 resamples. Case class = (call, length class).')
+RULE = ("P1: TLC explores the shuffle loop of resample.rs (2n transpositions, both indices drawn nondeterministically) "
+        "for n <= NMax (quick 3, thorough 4) over ALL draw sequences: the array stays a permutation, the paired array "
+        "sees the same swaps, every permutation is reachable after 2n swaps (ASSUME Reach = Perms), jackknife "
+        "definition sanity. P3: for each seed the real bootstrap / jackknife / shuffle / shuffle_two are called on "
+        "position tokens (lengths 1, 2, 1..64 and 200..2000), on repeated and special values (+-0, +-inf, NaN, "
+        "subnormal: sorted token multisets, paired tokens) and the events are validated by TLC (Trace_Resample): "
+        "permutation, common permutation, exact leave-one-out rows in order, row count / row length / index range of "
+        "bootstrap, and pooled position counts of 200 resamples inside the DKW band (alpha = 1e-12) of the exact "
+        "uniform CDF, and the position frequencies of every slot of every resample (the first one included) over 4000 "
+        "separate calls with 1..3 resamples; for n = 2000 and 1500 pooled index counts of 2e6 draws in eight bins and "
+        "sixty paired shuffles of a series with its negative. Case class = (call, length class).")
 ASSUMPTIONS = ["the random draws are the library's own (seeded thread-local generator); the spec constrains only what the property states, not the swap sequence",
                "DKW false-alarm probability <= 1e-12 per bootstrap_counts event"]
 TRUSTED = ("index projection of results (value -> position token) in harness/src/c19.rs",)
